@@ -137,7 +137,9 @@ def run(ctx, model_ok):
             x = core.run_batch("impl", [t])[0]
             y = core.run_batch("model", [t])[0]
             return y["status"] != "timeout" and tie.proj_full(x) != tie.proj_full(y)
-        small = shrink.shrink_lines(s, still, budget=80)
+        # a program on which the implementation no longer finishes is reported as it is (every shrinking step would wait
+        # for the time limit again)
+        small = s if a["status"] == "timeout" else shrink.shrink_lines(s, still, budget=80)
         c = core.run_cli(small)
         m = core.run_batch("model", [small])[0]
         if tie.proj_full(c) != tie.proj_full(m):
